@@ -35,10 +35,41 @@ def numfmtSpec (s : List Nat) : String :=
   | .error => "err sem 30"
   | .number => "num"
 
+/-- `idseq <cps>`: the code points looked up one after the other, in the given order (the model has no state) -/
+def idseqModel (s : List Nat) : String :=
+  "ok " ++ String.ofList (s.map fun c =>
+    match Model.idInRange c with
+    | .ok b => if b then '1' else '0'
+    | _ => 'P')
+
+/-- membership is a function of the code point alone: the order of the lookups does not enter -/
+def idseqSpec (s : List Nat) : String :=
+  "ok " ++ bits (s.map fun c =>
+    decide (c ≤ Generated.IdRange.idMax) && Spec.linearMember Generated.IdRange.idRange c)
+
+/-- `numname <cps>`: `MatchIDName` = `MatchIDType`, then only a name passes (error 32 for a number) -/
+def numnameModel (s : List Nat) : String :=
+  match Model.tryParseNumber s with
+  | .name => "name"
+  | .error => "err sem 30"
+  | .number => "err sem 32"
+
+/-- where only a name is allowed, a spelling is accepted iff it is not of number form and does not start like a number -/
+def numnameSpec (s : List Nat) : String :=
+  match Spec.classify s with
+  | .name => "name"
+  | _ => "rejected"
+
 def handle (op : String) (args : List String) : Option String :=
   match op, args with
   | "idrange", [lo, hi] => some (idrangeModel lo.toNat! hi.toNat!)
   | "spec:idrange", [lo, hi] => some (idrangeSpec lo.toNat! hi.toNat!)
+  | "idrangedesc", [lo, hi] => some (idrangeModel lo.toNat! hi.toNat!)
+  | "spec:idrangedesc", [lo, hi] => some (idrangeSpec lo.toNat! hi.toNat!)
+  | "idseq", [s] => some (idseqModel (parseCps s))
+  | "spec:idseq", [s] => some (idseqSpec (parseCps s))
+  | "numname", [s] => some (numnameModel (parseCps s))
+  | "spec:numname", [s] => some (numnameSpec (parseCps s))
   | "numfmt", [s] => some (numfmtModel (parseCps s))
   | "spec:numfmt", [s] => some (numfmtSpec (parseCps s))
   | _, _ => none
